@@ -40,3 +40,6 @@ add("C15", "property-based testing with metamorphic relations: repeated calls, g
 add("C17", "property-based testing: generated certificates and OpenSSL-accepted foreign CA certificates -> rcgen import -> field-by-field comparison with the generating parameters; PEM = DER; re-issue round trip",
     "Round trip parameters -> certificate -> import over the supported sub-space of C02 plus foreign CA certificates built by the harness encoder and pre-accepted by OpenSSL.",
     DEC + " and encoder; OpenSSL as gatekeeper for forged inputs.", "DESIGN.md §4 C17")
+add("C06", "property-based testing and mutation fuzzing with an in-check oracle: rcgen-generated, OpenSSL-signed foreign and mutated CSRs; acceptance implies OpenSSL verifies the signature over the exact CRI bytes under the key rcgen reports; issued certificate binds the request's SPKI bytes",
+    "Generated-input search over three sources of byte strings (generated, foreign incl. cross key/hash pairings, 16..48 structured mutations each) against a soundness oracle evaluated by OpenSSL and a binding oracle evaluated by the harness decoder; thorough adds a coverage-guided libFuzzer campaign with the same oracle.",
+    DEC + " and encoder; OpenSSL EVP verification and X509_REQ parsing as gatekeeper for forged inputs.", "DESIGN.md §4 C06")
